@@ -288,6 +288,9 @@ func checkC08(w *World, st core.Status, r *RunResult) []Violation {
 	failedGood := 0
 	for _, o := range w.Obs {
 		p := o.Plan
+		if transportLimit(o, r) {
+			continue
+		}
 		tag := ccfg.Proto.String() + "/" + p.Kind.String()
 		add := func(class, msg string) {
 			vs = append(vs, Violation{Class: "C08/" + class + "/" + tag, Msg: p.ID + ": " + msg})
